@@ -261,6 +261,63 @@ impl From<MeasureCalibrationIdentifier> for CalibrationSource {
     }
 }
 
+/// Replace the variable qubits of a calibration body instruction with the qubits they are bound to.
+fn substitute_qubit_variables(
+    instruction: &mut Instruction,
+    qubit_expansions: &HashMap<&String, Qubit>,
+) {
+    match instruction {
+        Instruction::Gate(Gate { qubits, .. })
+        | Instruction::Delay(Delay { qubits, .. })
+        | Instruction::Capture(Capture {
+            frame: FrameIdentifier { qubits, .. },
+            ..
+        })
+        | Instruction::RawCapture(RawCapture {
+            frame: FrameIdentifier { qubits, .. },
+            ..
+        })
+        | Instruction::SetFrequency(SetFrequency {
+            frame: FrameIdentifier { qubits, .. },
+            ..
+        })
+        | Instruction::SetPhase(SetPhase {
+            frame: FrameIdentifier { qubits, .. },
+            ..
+        })
+        | Instruction::SetScale(SetScale {
+            frame: FrameIdentifier { qubits, .. },
+            ..
+        })
+        | Instruction::ShiftFrequency(ShiftFrequency {
+            frame: FrameIdentifier { qubits, .. },
+            ..
+        })
+        | Instruction::ShiftPhase(ShiftPhase {
+            frame: FrameIdentifier { qubits, .. },
+            ..
+        })
+        | Instruction::Pulse(Pulse {
+            frame: FrameIdentifier { qubits, .. },
+            ..
+        })
+        | Instruction::Fence(Fence { qubits }) => {
+            // Swap all qubits for their concrete implementations
+            for qubit in qubits {
+                match qubit {
+                    Qubit::Variable(name) => {
+                        if let Some(expansion) = qubit_expansions.get(name) {
+                            *qubit = expansion.clone();
+                        }
+                    }
+                    Qubit::Fixed(_) | Qubit::Placeholder(_) => {}
+                }
+            }
+        }
+        _ => {}
+    }
+}
+
 impl Calibrations {
     /// Iterate over all [`CalibrationDefinition`]s in the set
     pub fn iter_calibrations(
@@ -356,57 +413,7 @@ impl Calibrations {
                         let mut instructions = calibration.instructions.clone();
 
                         for instruction in instructions.iter_mut() {
-                            match instruction {
-                                Instruction::Gate(Gate { qubits, .. })
-                                | Instruction::Delay(Delay { qubits, .. })
-                                | Instruction::Capture(Capture {
-                                    frame: FrameIdentifier { qubits, .. },
-                                    ..
-                                })
-                                | Instruction::RawCapture(RawCapture {
-                                    frame: FrameIdentifier { qubits, .. },
-                                    ..
-                                })
-                                | Instruction::SetFrequency(SetFrequency {
-                                    frame: FrameIdentifier { qubits, .. },
-                                    ..
-                                })
-                                | Instruction::SetPhase(SetPhase {
-                                    frame: FrameIdentifier { qubits, .. },
-                                    ..
-                                })
-                                | Instruction::SetScale(SetScale {
-                                    frame: FrameIdentifier { qubits, .. },
-                                    ..
-                                })
-                                | Instruction::ShiftFrequency(ShiftFrequency {
-                                    frame: FrameIdentifier { qubits, .. },
-                                    ..
-                                })
-                                | Instruction::ShiftPhase(ShiftPhase {
-                                    frame: FrameIdentifier { qubits, .. },
-                                    ..
-                                })
-                                | Instruction::Pulse(Pulse {
-                                    frame: FrameIdentifier { qubits, .. },
-                                    ..
-                                })
-                                | Instruction::Fence(Fence { qubits }) => {
-                                    // Swap all qubits for their concrete implementations
-                                    for qubit in qubits {
-                                        match qubit {
-                                            Qubit::Variable(name) => {
-                                                if let Some(expansion) = qubit_expansions.get(name)
-                                                {
-                                                    *qubit = expansion.clone();
-                                                }
-                                            }
-                                            Qubit::Fixed(_) | Qubit::Placeholder(_) => {}
-                                        }
-                                    }
-                                }
-                                _ => {}
-                            }
+                            substitute_qubit_variables(instruction, &qubit_expansions);
 
                             instruction.apply_to_expressions(|expr| {
                                 *expr = expr.substitute_variables(&variable_expansions);
@@ -426,8 +433,15 @@ impl Calibrations {
 
                 match matching_calibration {
                     Some(calibration) => {
+                        let mut qubit_expansions: HashMap<&String, Qubit> = HashMap::new();
+                        if let Qubit::Variable(identifier) = &calibration.identifier.qubit {
+                            qubit_expansions.insert(identifier, measurement.qubit.clone());
+                        }
+
                         let mut instructions = calibration.instructions.clone();
                         for instruction in instructions.iter_mut() {
+                            substitute_qubit_variables(instruction, &qubit_expansions);
+
                             match instruction {
                                 Instruction::Pragma(pragma)
                                     if pragma.name == "LOAD-MEMORY"
@@ -437,9 +451,18 @@ impl Calibrations {
                                         pragma.data = Some(target.to_quil_or_debug())
                                     }
                                 }
-                                Instruction::Capture(capture) => {
+                                // Only references to the calibration's own target name stand for
+                                // the measurement target; other memory references stay as written.
+                                Instruction::Capture(Capture {
+                                    memory_reference, ..
+                                })
+                                | Instruction::RawCapture(RawCapture {
+                                    memory_reference, ..
+                                }) if Some(&memory_reference.name)
+                                    == calibration.identifier.target.as_ref() =>
+                                {
                                     if let Some(target) = &measurement.target {
-                                        capture.memory_reference = target.clone()
+                                        *memory_reference = target.clone()
                                     }
                                 }
                                 _ => {}
